@@ -418,7 +418,7 @@ func (e *Engine) trSelector(env *SpecEnv, n SSel) Val {
 	// package-qualified name?
 	if id, ok := n.X.(SIdent); ok {
 		if _, bound := env.vars[id.Name]; !bound {
-			if pkg := e.importedPkg(env, id.Name); pkg != nil {
+			if pkg := e.importedPkgIfUnbound(env, id.Name); pkg != nil {
 				if g, ok := e.w.Ghosts[pkg.Path()+"."+n.Sel]; ok {
 					hn := "GH_" + g.Pkg.PkgPath + "." + g.Name
 					s := e.sortOf(g.Type)
@@ -618,6 +618,15 @@ func (e *Engine) trCall(env *SpecEnv, n SCall) Val {
 			return boolVal(dom)
 		}
 		return boolVal(and("(not (= "+m.T+" 0))", dom))
+	case "mapGet":
+		// mapGet(m, k): the stored value for key k (meaningful only when mapHas(m, k)); a plain array read, usable in triggers
+		m, k := arg(0), arg(1)
+		mt, ok := m.GoT.Underlying().(*types.Map)
+		if !ok {
+			e.specFail(env, "mapGet on non-map")
+		}
+		vh, vs, _, _ := e.mapHeapNames(mt)
+		return Val{T: sel(sel(e.heapIn(env.st, vh, vs), m.T), k.T), S: e.sortOf(mt.Elem()), GoT: mt.Elem()}
 	case "errIs":
 		a, b := arg(0), arg(1)
 		return boolVal("(errIs " + a.T + " " + b.T + ")")
@@ -681,6 +690,22 @@ func (e *Engine) trCall(env *SpecEnv, n SCall) Val {
 			}
 		}
 		e.specFail(env, "visited(): the current loop is not a range over a map")
+	case "mk":
+		// mk(T, f0, f1, ...): a value of struct type T with the given field values (in declaration order)
+		t, err := e.w.resolveType(env.pkg, env.pos, specString(n.Args[0]))
+		if err != nil {
+			e.specFail(env, err.Error())
+		}
+		u, ok := isStruct(t)
+		if !ok || u.NumFields() != len(n.Args)-1 {
+			e.specFail(env, "mk(T, fields...): T must be a struct type with that many fields")
+		}
+		srt := e.structSort(t, u)
+		var fs []string
+		for k := 1; k < len(n.Args); k++ {
+			fs = append(fs, arg(k).T)
+		}
+		return Val{T: "(mk_" + srt + " " + strings.Join(fs, " ") + ")", S: srt, GoT: t}
 	case "decoded":
 		// decoded(reader, T): the value a decoder reading from reader stores into a target of type T
 		t, err := e.w.resolveType(env.pkg, env.pos, specString(n.Args[1]))
